@@ -163,7 +163,7 @@ BA = 'petl.transform.basics.'
 
 
 def slice_task(name, sliceargs_builder, lo_hi):
-    @vc('C13.iterrowslice.' + name, functions=[BA + 'iterrowslice'], props=['C13', 'C03', 'C20'],
+    @vc('C13.iterrowslice.' + name, functions=[BA + 'iterrowslice'], props=['C13', 'C03', 'C20', 'C02'],
         assumptions=['T2: itertools.islice(it, start, stop) yields exactly the elements with index start <= i < stop of what is left of `it` (step 1)',
                      'stateless-body rule (engine meta-theorem)'])
     def task(h):
